@@ -140,6 +140,10 @@ def build():
                                  ensures=[stack_post(k, (lambda k, nm: lambda ex, env, n, at0: z3.Concat(SV(nm + "("), joined(at0, n, k), SV(")")))(k, FMAP[fid]),
                                                      f"stack' == stack[:-{k}] + ['{FMAP[fid]}(' + ','.join(stack[-{k}:]) + ')'] (arguments in pushed order)")]))
 
+    for c_ in plan.targets:
+        if c_.qual.startswith("formula:Formula.") and c_.qual.split(".")[-1] in list(BINARY) + ["negate", "percent", "list", "function", "string", "boolean", "empty"] and getattr(c_, "search", None) is None:
+            c_.search = (lambda mm: lambda plan_, c: {"custom": "search_stack_op", "native_module": plan_.native_module, "method": mm})(c_.qual.split(".")[-1])
+
     # ---- dispatch table: every operator node type is wired to the method that renders its glyph
     def dispatch_check():
         table = extract.module_const("formula", "NODE_FUNCTION_MAP")
@@ -157,6 +161,22 @@ def build():
         return (not bad), (bad or "NODE_FUNCTION_MAP wires each operator/literal node type to the method proved to render it"), len(NODE_GLYPH) + 12
     plan.ground.append(("dispatch-table", dispatch_check))
 
+
+    # ------------------------------------------------------------------ number literals: the text is the literal's shortest round-trip spelling
+    # A-REPR (assumed, CPython): repr(x) of a finite double is the shortest decimal string with float(repr(x)) == x.  Under it a
+    # literal whose repr has no exponent denotes itself exactly iff number_to_str returns that repr unchanged.
+    def nts_entry(ex):
+        return {"v": ex.fresh("float", "v")}
+
+    def nts_repr(ex, env):
+        r = SStr(z3.String(fresh_name("repr_v")))
+        ex.assume(z3.Not(z3.Contains(r.t, SV("e"))))
+        ex.entry_env["g_repr"] = r
+        return r
+    plan.target(Contract("formula:number_to_str", label="plain-decimal", entry=nts_entry, opaque={"repr(v)": nts_repr}, safety="fork",
+                         ensures=[lambda ex, env: env["result"].t == ex.entry_env["g_repr"].t
+                                  if isinstance(env["result"], SStr) and "g_repr" in ex.entry_env else z3.BoolVal(False)],
+                         search=lambda plan_, c: {"custom": "search_number_text", "native_module": plan_.native_module}))
 
     # ------------------------------------------------------------------ memoisation is transparent: every cached method keys on all its parameters
     def caches_key_on_all_parameters():
